@@ -1,7 +1,12 @@
 #!/bin/bash
 # usage: regress.sh [pattern]  - re-evaluates every seeded change (seeded/<id>/patch.diff) against the quick check of its own
-# property on a scratch worktree; prints one line per change. Evidence files are restored afterwards (evalmut.sh does that).
-cd /verif
+# property on a scratch worktree; prints one line per change. Runs from a snapshot copy of /verif (harness, tools, seeded
+# changes) under /tmp, so that work on /verif in the meantime does not mix harness versions; the snapshot is removed at the end.
+SNAP=/tmp/verif_snap_$$
+mkdir -p $SNAP
+rsync -a --exclude build --exclude replays --exclude .git --exclude evidence /verif/ $SNAP/
+trap 'rm -rf $SNAP' EXIT
+cd $SNAP
 for d in seeded/${1:-*}/; do
   id=$(basename $d); prop=${id%-*}
   line=$(tools/evalmut.sh $d/patch.diff quick $prop 2>&1 | head -1)
